@@ -158,18 +158,19 @@ var All = []*Prop{
 	},
 	{
 		ID:    "C17",
-		Rules: []*core.Rule{rules.FreshDetach, rules.UnsafeOwner},
+		Rules: []*core.Rule{rules.FreshDetach, rules.IdxBound, rules.UnsafeOwner},
 		Explanation: "Memory-safety clause. Element access is unsafe.Add(SliceData(buf), idx) with no bounds check and the only run-time event that invalidates a once-valid index is detach (length/offset/elemSize/viewedArrayBuf are written only at construction: checked). " +
 			"R-FRESH-DETACH is a forward must-dataflow over SSA with inter-procedural summaries: every call of typedArray.{get,set,getRaw,setRaw,less,swap,export} and every slicing/indexing/copy of arrayBufferObject.data must be reached only by paths on which the buffer was checked not-detached (ensureNotDetached(true), the true edge of ensureNotDetached(false)/isValidIntegerIndex, !detached), or is a brand-new unescaped buffer, after the last call that may run script and return. 'May run script' is a greatest-fixed-point summary over the VTA call graph (calls that only run script on a path ending in panic do not count; typeErrorResult(true,..) is recognised as no-return). " +
 			"Side obligations checked on every run: the value passed to typedArray.set is already primitive (conversion before the element pointer is computed); typeMatch implementations are call-free; assertCallable/assertConstructor implementations never invoke; the sort-context needValidate protocol; field stability; defaultCtor is always r.global.<TypedArray>; buffer data is only replaced by detach() or on new buffers; ensureNotDetached returns true only on the !detached edge. " +
+			"R-IDXBOUND (index range): for each of the 43 accessor calls indexed with X.offset + k a small linear-inequality prover shows k - X.length + 1 <= 0 and -k <= 0 from the controlling branch conditions of the call, the definitions of the values involved (min/max, relToIdx - itself proved from its body -, x/c, +-const), phis split per incoming edge with that edge's conditions, loop counters that only move towards the safe side, the post-condition of typedArrayCreate (result length >= requested, checked) and typedArrayObject.length >= 0. One site is an audited exception (filter's keptTa). " +
 			"R-UNSAFEOWNER: package unsafe is referenced only in the element accessors (whose call sites are the guarded uses) and an audited table of dereference-free idioms.",
 		Assumptions: []string{
 			"constructing through an intrinsic %TypedArray% constructor (X.defaultCtor, always loaded from r.global) with primitive arguments runs no user code: its 'prototype' property is a non-configurable data property",
 			"objects passed as receivers/arguments to module functions do not become reachable by script except through their *Object handle (X.val)",
 		},
-		Technique:  "guard-freshness forward dataflow on SSA with may-run-script kills (VTA call graph fixed point), escape-aware local objects, alias summaries; who-may-use rule for package unsafe",
+		Technique:  "guard-freshness forward dataflow on SSA with may-run-script kills (VTA call graph fixed point), escape-aware local objects, alias summaries; symbolic linear-inequality bounds proof over SSA (branch conditions + definitions, depth-bounded search); who-may-use rule for package unsafe",
 		DesignRef:  "DESIGN.md section 4, C17",
-		NotCovered: "index range arithmetic (that offset+i < length*elemSize; e.g. copyWithin's count clamp) — R-IDXBOUND is not armed; byte-level NumericToRawBytes semantics; aliasing equality of views; Go-side []byte sharing after Detach",
+		NotCovered: "index ranges of the 9 accessor calls whose index is absolute (newly created arrays indexed from 0, the sort context's cached offset) and of raw byte-slice arithmetic on ArrayBuffer.data (copyWithin/set/slice memmove paths, DataView offsets); integer overflow of index arithmetic; byte-level NumericToRawBytes semantics; aliasing equality of views; Go-side []byte sharing after Detach",
 	},
 	{
 		ID:    "C13",
